@@ -58,6 +58,10 @@ pub struct Sample {
 pub trait Payload: Clone + PartialEq + Send + Sync + Unpin + 'static {
     fn make(i: u64, size: usize, rng: &mut StdRng) -> Self;
     fn index(&self) -> u64;
+    /// the value whose encoding has no bytes at all, where the type has one
+    fn empty() -> Option<Self> {
+        None
+    }
 }
 pub const SENTINEL: u64 = 1 << 40;
 pub const SENTINEL_END: u64 = (1 << 40) + 999_999;
@@ -72,6 +76,9 @@ impl Payload for String {
     }
     fn index(&self) -> u64 {
         self.split(':').next().and_then(|x| x.parse().ok()).unwrap_or(u64::MAX)
+    }
+    fn empty() -> Option<Self> {
+        Some(String::new())
     }
 }
 impl Payload for Vec<u8> {
@@ -88,6 +95,9 @@ impl Payload for Vec<u8> {
         } else {
             u64::MAX
         }
+    }
+    fn empty() -> Option<Self> {
+        Some(Vec::new())
     }
 }
 impl Payload for Sample {
@@ -182,6 +192,13 @@ where
     }
     log.emit("case", json!({"run": run, "size": size, "elapses": elapses, "comp": comp, "codec": std::any::type_name::<Item>(), "nops": ops.len(), "big": big}));
 
+    // Every sixth case of a codec that has one: items whose encoding is empty -- all of them, or all but
+    // every third.  Such items carry no number; they are told apart by position (the subscriber must yield
+    // exactly as many items as were accepted, each equal to the one sent in that place).
+    let empties: u64 = if run % 6 == 4 && !burst && Item::empty().is_some() { if run % 12 == 4 { 1 } else { 3 } } else { 0 };
+    if empties > 0 {
+        log.emit("payloads", json!({"empty": if empties == 1 { "all" } else { "all_but_every_third" }}));
+    }
     let mut sb = client.subscriber(topic).with_decoder(codec.clone());
     if let Some((_, d)) = compression(comp) {
         sb = sb.with_decompression(d);
@@ -262,7 +279,7 @@ where
     // codec.  The subscriber must report exactly one error for it, and nothing that follows may be
     // disturbed (the subscriber keeps its decoder and decompressor objects for the life of its stream).
     let tname = std::any::type_name::<Item>();
-    if run % 5 == 2 && !burst && !tname.contains("Vec<u8>") {
+    if run % 5 == 2 && !burst && empties == 0 && !tname.contains("Vec<u8>") {
         let bad: Vec<u8> = if tname.contains("String") {
             b"\xff\xfe\xfd not utf-8 \xc3".to_vec()
         } else {
@@ -348,7 +365,10 @@ where
             "send" | "feed" => {
                 let i = sent.len() as u64 + 1;
                 let psize = if burst { 8192 } else if big { rng.gen_range(100_000..300_000) } else { rng.gen_range(0..200) };
-                let item = Item::make(i, psize, rng);
+                let item = match Item::empty() {
+                    Some(e) if empties == 1 || (empties == 3 && i % 3 != 0) => e,
+                    _ => Item::make(i, psize, rng),
+                };
                 sent.push(item.clone());
                 let p = publisher.as_mut().unwrap();
                 let r = if op == "send" {
@@ -381,7 +401,7 @@ where
     while got < sent.len() {
         match tokio::time::timeout(Duration::from_secs(4), sub.recv()).await {
             Ok(Some(Some(Ok(it)))) => {
-                let i = it.index();
+                let i = if empties > 0 { got as u64 + 1 } else { it.index() };
                 let eq = i >= 1 && (i as usize) <= sent.len() && sent[i as usize - 1] == it;
                 got += 1;
                 log.emit("sub_item", json!({"i": i, "eq": eq}));
